@@ -73,6 +73,15 @@ def eval_voxel(case):
         g2 = np.asarray(P.compute_form_factor_amplitude(qs, density=2.5))
         if np.max(np.abs(g2 - 2.5 * got)) > TOL * V:
             bad("density", "F is not linear in the density")
+        # the transform of the shape as it is NOW: the volume setter of Polyhedron doubles the coordinates (it scales about
+        # the origin, as ShapeMachine.tla records), so F'(q/2) = 8 F(q) - same exact record, no new arithmetic
+        P.volume = 8 * V
+        g3 = np.asarray(P.compute_form_factor_amplitude(qs / 2))
+        want3 = 8 * want
+        if g3.shape != want3.shape or not np.all(np.isfinite(g3)) or np.max(np.abs(g3 - want3)) > TOL * 8 * V:
+            k = int(np.argmax(np.abs(g3 - want3))) if g3.shape == want3.shape else 0
+            bad("compute_form_factor_amplitude", f"after the volume setter doubled the size: q = (pi/4) {rec['ff'][k]['m']} returned "
+                f"{g3[k] if g3.shape == want3.shape else g3.shape}, exact {want3[k]}", ["after_resize", kinds[k]])
     except Exception as e:
         bad("compute_form_factor_amplitude", f"raised {type(e).__name__}: {e}", ["raised"])
     return out, {}
